@@ -12,13 +12,16 @@ from harness.structs_common import *
 PLACE = {'HA': 'vec2<u32>', 'HB': 'vec3<u32>', 'HC': 'vec4<u32>'}
 
 
-def render(spell=None, decls=''):
+NAME0 = SymStr([('sym', 'Host_member0_name')])      # the NAME of the first member of Host is an abstract string
+
+
+def render(spell=None, decls='', name0='m0'):
     s = dict(PLACE)
     s.update(spell or {})
     return decls + f'''struct Inner {{ a: f32, b: vec3<f32> }}
 struct Inner2 {{ a: f32, b: vec3<f32> }}
 struct Host {{
-  m0: {s["HA"]},
+  {name0}: {s["HA"]},
   m1: {s["HB"]},
   inner: Inner,
   inner2: Inner2,
@@ -47,7 +50,8 @@ def run(ctx):
     hf32 = find_type(mj, lambda t: t['inner'].get('Scalar') == {'kind': 'Float', 'width': 4})
     hh = {k: find_type(mj, lambda t, k=k: t['inner'].get('Vector') == {'scalar': {'kind': 'Uint', 'width': 4}, 'size': {'HA': 'Bi', 'HB': 'Tri', 'HC': 'Quad'}[k]})
           for k in PLACE}
-    HA = TypeHole(ctx, 'HA')
+    f32sem_ = {'kind': 'Float', 'width': 4, 'dims': [], 'leaf': 0, 'repr': 'scalar'}
+    HA = TypeHole(ctx, 'HA', array_bases=[(hf32, f32sem_, 'f32')])          # HA may itself be array<f32, n>: HC = array<HB> of array<HA> is three levels
     HB = TypeHole(ctx, 'HB', array_bases=[(hh['HA'], HA, lambda m: HA.wgsl(m)), (named['Inner'], {'struct': 'Inner'}, 'Inner'),
                                           (hf32, {'kind': 'Float', 'width': 4, 'dims': [], 'leaf': 0, 'repr': 'scalar'}, 'f32')])
     HC = TypeHole(ctx, 'HC', array_bases=[(hh['HA'], HA, lambda m: HA.wgsl(m)), (named['Inner'], {'struct': 'Inner'}, 'Inner'),
@@ -56,8 +60,8 @@ def run(ctx):
     holes = {'HA': HA, 'HB': HB, 'HC': HC}
     fmt = z3.BitVec('matrix_vector_types', 64)
     ctx.bounds = {'structs': 'Host (5 members: 2 symbolic, nested struct, array of struct, symbolic trailing member) + vertex struct with interleaved builtins + nested Inner',
-                  'member type': 'scalar/atomic/vector/matrix with kind, width, size, cols, rows symbolic; arrays of length any non-zero u32 over {f32, Inner, another hole}; nesting <= 2',
-                  'representation': 'Rust / Glam / Nalgebra (symbolic)', 'type names': 'every symbolic member type is written directly or through a WGSL alias (symbolic)'}
+                  'member type': 'scalar/atomic/vector/matrix with kind, width, size, cols, rows symbolic; arrays of length any non-zero u32 over {f32, Inner, another hole}; nesting <= 3 (array of array of array)',
+                  'representation': 'Rust / Glam / Nalgebra (symbolic)', 'member names': 'the name of Host\'s first member is an abstract string (any predicate the code asks about it is answered both ways)', 'type names': 'every symbolic member type is written directly or through a WGSL alias (symbolic)'}
     ctx.assumptions += ['scalar (kind, width) restricted to what WGSL can spell: i32 u32 f32 f64 bool (other widths make the generator refuse with todo!)',
                         'for `[[T; a]; b]` matrices the multiset {a, b} must equal {rows, cols} (the statement speaks of element counts); nalgebra must be exactly SMatrix<T, rows, cols>',
                         'an unknown Rust type name is inconclusive (exit 2), not a violation']
@@ -67,7 +71,7 @@ def run(ctx):
             alts = []
             for h, what, _ in hole.bases:
                 if isinstance(what, TypeHole):
-                    alts.append(z3.And(base_term == h, what.matches(sem, base_match=None)))
+                    alts.append(z3.And(base_term == h, what.matches(sem, base_match=base_match_for(what) if what.bases else None)))
                 elif 'struct' in what:
                     alts.append(z3.And(base_term == h, z3.BoolVal(sem == what)))
                 else:
@@ -79,25 +83,31 @@ def run(ctx):
     def pin(h, kind='Float', width=4):
         # holes that are not symbolic in this run are 3-component vectors (so that arrays of them are arrays of vec3)
         return [h.tdisc == h.TI['Vector'], h.vsize == 3, h.kind == h.SK[kind], h.width == width]
-    plans = [('HA',), ('HB',), ('HC',)] if ctx.tier == 'quick' else [('HA', 'HB'), ('HA', 'HC'), ('HB',), ('HC',)]
+    plans = [('HA',), ('HB',), ('HC',), ('deep',)] if ctx.tier == 'quick' else [('HA', 'HB'), ('HA', 'HC'), ('HB',), ('HC',), ('deep',)]
     seen = {}
     opts_fixed = dict(derive_encase_host_shareable=True)
     for plan in plans:
         module = c.module(S.dump(src))
         types_ = c.get(module, 'types').fields[0].items
+        c.set(c.get(types_[named['Host']], 'inner').fields[0].items[0], 'name', some(NAME0))
         for k, h in holes.items():
             set_inner(ctx, module, hh[k], h.inner(ctx))
             c.set(types_[hh[k]], 'name', h.name_value())        # written directly or through `alias X = ...;` (symbolic)
         assume = [z3.ULT(fmt, 3)]
         for k, h in holes.items():
             assume += h.assumption()
-            if k not in plan:
+            if plan == ('deep',):
+                # three nesting levels with three independent symbolic lengths: tail: array<array<array<f32, a>, b>, c>
+                base_ = {'HA': hf32, 'HB': hh['HA'], 'HC': hh['HB']}[k]
+                assume += [h.tdisc == h.TI['Array'], h.base == base_, z3.Not(h.adyn), z3.Not(h.aliased), z3.ULE(h.alen, 64)]
+            elif k not in plan:
                 assume += pin(h) + [z3.Not(h.aliased)]
             # types are unique in naga's arena: a symbolic array type is not the template's own `array<Inner, 3>`,
             # and two symbolic array types are not the same type
             if h.bases:
                 assume.append(z3.Not(z3.And(h.tdisc == h.TI['Array'], h.base == named['Inner'], h.alen == 3, z3.Not(h.adyn))))
-        assume.append(z3.Not(z3.And(HB.tdisc == HB.TI['Array'], HC.tdisc == HC.TI['Array'], HB.base == HC.base, HB.alen == HC.alen, HB.adyn == HC.adyn)))
+        for x_, y_ in ((HB, HC), (HA, HB), (HA, HC)):
+            assume.append(z3.Not(z3.And(x_.tdisc == x_.TI['Array'], y_.tdisc == y_.TI['Array'], x_.base == y_.base, x_.alen == y_.alen, x_.adyn == y_.adyn)))
         # WGSL: a runtime-sized array may only be the last member (HC) and its element is not itself runtime-sized
         res = ctx.explore(f'structs/symbolic-{"+".join(plan)}',
                           lambda it: it.call('structs', [mkref(module), write_options(S.conv, matrix_vector_types=fmt, **opts_fixed)]),
@@ -163,10 +173,10 @@ def conditions(sts, order, holes, base_match_for):
     conds.append(('Host emitted', B(host is not None)))
     if host:
         names = [f[0] for f in host['fields']]
-        conds.append(('Host: members in declaration order under the same names', B(names == ['m0', 'm1', 'inner', 'inner2', 'arr_inner', 'tail'])))
+        conds.append(('Host: members in declaration order under the same names', B(names == [NAME0, 'm1', 'inner', 'inner2', 'arr_inner', 'tail'])))
         fd = {f[0]: f for f in host['fields']}
-        if 'm0' in fd:
-            conds.append(('Host.m0: element type', HA.matches(decode_type(fd['m0'][2]))))
+        if NAME0 in fd:
+            conds.append(('Host.m0: element type', HA.matches(decode_type(fd[NAME0][2]), base_match=base_match_for(HA))))
         if 'm1' in fd:
             conds.append(('Host.m1: element type', HB.matches(decode_type(fd['m1'][2]), base_match=base_match_for(HB))))
         if 'inner' in fd:
@@ -184,7 +194,7 @@ def conditions(sts, order, holes, base_match_for):
                               z3.And(is_rt, B(marked), base_match_for(HC)(HC.base, sem['rt']))))
             else:
                 conds.append(('Host.tail: element type', z3.And(z3.Not(is_rt), B(fd['tail'][1] == []), HC.matches(sem, base_match=base_match_for(HC)))))
-        for n in ('m0', 'm1', 'inner', 'inner2', 'arr_inner'):
+        for n in (NAME0, 'm1', 'inner', 'inner2', 'arr_inner'):
             if n in fd:
                 conds.append((f'Host.{n}: no stray attribute', B(fd[n][1] == [])))
     vin = sts.get('VIn')
@@ -209,7 +219,8 @@ def replay(ctx, holes, fmt, m, opts_fixed, base_match_for, failed):
     if not all(spell.values()) or None in decls:
         return False, {'note': f'no WGSL spelling for {spell}'}
     o = dict(opts_fixed, matrix_vector_types=['Rust', 'Glam', 'Nalgebra'][model_value(m, fmt)])
-    src = render(spell, ''.join(decls))
+    name0 = concrete_name(m, NAME0, 'm0')
+    src = render(spell, ''.join(decls), name0)
     kind, toks, _ = ctx.gen_tokens(src, o)
     det = {'wgsl': src, 'options': o}
     if kind != 'ok':
@@ -217,6 +228,8 @@ def replay(ctx, holes, fmt, m, opts_fixed, base_match_for, failed):
         return kind == 'panic', det
     try:
         sts, order = decode_structs(toks)
+        if 'Host' in sts:       # the native output carries the concrete name where the symbolic run has the abstract one
+            sts['Host']['fields'] = [((NAME0 if f[0] == name0 else f[0]),) + tuple(f[1:]) for f in sts['Host']['fields']]
         conds = conditions(sts, order, holes, base_match_for)
     except (UnknownType, T.DecodeError) as e:
         det['real'] = f'does not decode: {e}'
